@@ -81,21 +81,19 @@ def _subgoal_proofs_stay(P, R, fn):
         if pos is None:
             return None
         return ("sw", "otherwise") if pos else ("sw", 0)
-    for sp in succ_pts:
-        seen, work, hit = {sp.bb}, [sp.bb], None
-        while work and hit is None:
-            b = work.pop()
-            only = depth_edge(b)
+    # edges a depth test cannot take when depth > 0
+    dead = set()
+    for b in fn.normal_blocks():
+        only = depth_edge(b)
+        if only is not None:
             for (tg, lab) in fn.succ(b):
-                if only is not None and lab != only:
-                    continue
-                if tg in seen or tg in commits or tg not in fn.normal_blocks():
-                    continue
-                if any(rb.bb == tg for rb in rollbacks):
-                    hit = tg
-                    break
-                seen.add(tg)
-                work.append(tg)
+                if lab != only:
+                    dead.add((b, tg, lab))
+    for sp in succ_pts:
+        # constant tracking keeps `let enough = depth > 0 || ..; if enough {commit} else {rollback}` exact
+        r = A.reach_bool(fn, sp.bb, avoid_edges=dead, avoid_blocks=commits)
+        hits = [rb.bb for rb in rollbacks if rb.bb in r]
+        hit = hits[0] if hits else None
         if hit is None:
             R.hold("e", "a solution recorded at depth > 0 is committed before any rollback (line %d)" % sp.line, fn=fn, line=sp.line)
         else:
@@ -214,6 +212,11 @@ def _witness(P, R, fn):
                         rs_ = A.returned_syms(cf) if cf else []
                         if len(rs_) == 1 and strip(rs_[0][1])[0] == "call" and strip(rs_[0][1])[1] == fn.name:
                             why = why or "all sub-goals returned true (iter.all over the recursive search)"
+        shared = any("solutions" in fmt_sym(g_["cond"], maxdepth=8) for g_ in A.guards_of(fn, bb))
+        if why is None and vtxt != "true" and not shared:
+            # a computed verdict (`!negated` out of a tuple match, ..) whose witness this rule does not read: no verdict, not an alarm
+            R.undecide("a", "unwitnessed:%s" % vtxt, "search_recursive_with_execution returns `%s` at %s; the goal check that justifies it was not found in a form this rule reads" % (vtxt, fn.loc(d[3][0])), fn, d[3][0])
+            continue
         if why is None:
             R.violate("a", "unwitnessed-true:%s" % vtxt, "search_recursive_with_execution returns `%s` at %s without a dominating goal check on the same goal (no check_goal_in_facts true edge, no sub-goal conjunction, not a negated goal)" % (vtxt, fn.loc(d[3][0])), fn, d[3][0])
             continue
@@ -232,8 +235,9 @@ def _witness(P, R, fn):
                                   "a positive verdict (`%s` at %s) is returned after the derivation that proved the goal was rolled back (rollback_undo_frame at line %d lies between setting `%s` and the return): the goal is reported provable but is not true in the facts handed back" % (
                                       vtxt, fn.loc(d[3][0]), fn.term(through[0])[0], fn.local_name(l)), fn, d[3][0])
         elif w_edge is not None and not isinstance(w_edge[0], str):
-            r = fn.reach(w_edge[1])
-            through = [rb for rb in rollbacks if rb in r and bb in fn.reach(rb, avoid_blocks=[w_edge[0]])]
+            r = A.reach_bool(fn, w_edge[1])
+            # ... keeping what the branch the rollback sits in says about materialised flags (`if enough {commit} else {rollback}; enough`)
+            through = [rb for rb in rollbacks if rb in r and bb in A.reach_bool(fn, rb, avoid_blocks=[w_edge[0]], seed_from=rb)]
             if through:
                 bad = True
                 R.violate("a", "proof-rolled-back:direct", "a rollback lies between check_goal_in_facts and the positive return at %s" % fn.loc(d[3][0]), fn, d[3][0])
